@@ -358,10 +358,8 @@ func rulesC20(c *Ctx) {
 				}
 			}
 			if isNilIdent(r.Results[0]) && isNilIdent(r.Results[1]) {
-				if hasAtom(guards, func(a Atom) bool {
-					x, y, op, ok := cmpOn(a.E, func(e ast.Expr) bool { return cp.ObjOf(e) == start })
-					return ok && op == token.GEQ && a.Val && cp.ObjOf(x) == start && func() bool { lc, ok := ast.Unparen(y).(*ast.CallExpr); return ok && cp.BuiltinName(lc) == "len" }()
-				}) {
+				// start >= len(data), in any spelling: len(data) - (index + 1 - first) <= 0
+				if cp.hasLinAtom(guards, token.LEQ, -1, map[string]int64{"len(dataList.data)": 1, "param(int)": -1, "dataList.first": 1}) {
 					emptyRet = r
 				}
 			}
@@ -386,22 +384,14 @@ func rulesC20(c *Ctx) {
 		c.Check(emptyRet != nil, "After:nothing-new", cp, nil, "start >= len(data) returns no data")
 		okClone := false
 		if dataRet != nil {
-			if ce, ok := ast.Unparen(dataRet.Results[0]).(*ast.CallExpr); ok && cp.Callee(ce) != nil && cp.Callee(ce).FullName() == "slices.Clone" {
-				if sl, ok := ast.Unparen(ce.Args[0]).(*ast.SliceExpr); ok && cp.IsField(sl.X, dataF) && cp.ObjOf(sl.Low) == start && sl.High == nil {
-					okClone = true
-				}
-			}
+			okClone = freshSuffixCopy(cp, dataRet.Results[0], dataF, start)
 			gd := g.GuardsAt(g.VertexOf(dataRet))
-			c.Check(hasAtom(gd, func(a Atom) bool {
-				x, _, op, ok := cmpOn(a.E, func(e ast.Expr) bool { return cp.ObjOf(e) == start })
-				return ok && op == token.LSS && !a.Val && cp.ObjOf(x) == start
-			}) &&
-				hasAtom(gd, func(a Atom) bool {
-					x, _, op, ok := cmpOn(a.E, func(e ast.Expr) bool { return cp.ObjOf(e) == start })
-					return ok && op == token.GEQ && !a.Val && cp.ObjOf(x) == start
-				}), "After:suffix-bounds-checked", cp, dataRet, "the suffix is taken only for 0 <= start < len(data)")
+			// 0 <= start: -(index + 1 - first) <= 0;  start < len(data): (index + 1 - first) - len(data) + 1 <= 0
+			c.Check(cp.hasLinAtom(gd, token.LEQ, -1, map[string]int64{"param(int)": -1, "dataList.first": 1}) &&
+				cp.hasLinAtom(gd, token.LEQ, 2, map[string]int64{"param(int)": 1, "dataList.first": -1, "len(dataList.data)": -1}),
+				"After:suffix-bounds-checked", cp, dataRet, "the suffix is taken only for 0 <= start < len(data)")
 		}
-		c.Check(okClone, "After:copy-under-lock", cp, dataRet, "the suffix data[start:] is copied with slices.Clone while the lock is held (eviction nils elements of the live backing array, so an aliasing view would later yield emptied payloads without a purge error)")
+		c.Check(okClone, "After:copy-under-lock", cp, dataRet, "the suffix data[start:] is copied (slices.Clone, append to an empty slice, or an element-by-element copy into a new slice) while the lock is held (eviction nils elements of the live backing array, so an aliasing view would later yield emptied payloads without a purge error)")
 		c.Check(cp.heldLocal(dataRet)[lkStore], "After:copy-lock-held", cp, dataRet, "the copy happens with the store mutex held")
 		// the iterator: error first and alone; data yielded outside the lock
 		var it *Func
@@ -536,4 +526,124 @@ func rulesC20(c *Ctx) {
 		}
 		c.Pin("stores into the session/stream maps", n, 2)
 	})
+}
+
+// freshSuffixCopy: e is a copy of data[start:] that shares no backing array with data: slices.Clone(data[start:]),
+// append of data[start:]... to an empty slice, or a local built from nothing by appending data[i] for i = start … len(data)-1
+// (for-loop or range over data[start:]) or by copy into make([]T, len(data)-start).
+func freshSuffixCopy(f *Func, e ast.Expr, dataF *types.Var, start types.Object) bool {
+	suffix := func(x ast.Expr) bool {
+		sl, ok := ast.Unparen(x).(*ast.SliceExpr)
+		return ok && f.IsField(sl.X, dataF) && sl.Low != nil && f.ObjOf(sl.Low) == start && sl.High == nil && sl.Max == nil
+	}
+	empty := func(x ast.Expr) bool {
+		x = ast.Unparen(x)
+		if isNilIdent(x) {
+			return true
+		}
+		switch y := x.(type) {
+		case *ast.CompositeLit:
+			return len(y.Elts) == 0
+		case *ast.CallExpr:
+			if len(y.Args) == 1 && isNilIdent(y.Args[0]) {
+				return true // []T(nil)
+			}
+			if f.BuiltinName(y) == "make" && len(y.Args) >= 2 {
+				z, ok := f.ConstInt(y.Args[1])
+				return ok && z == 0
+			}
+		}
+		return false
+	}
+	e = ast.Unparen(e)
+	if ce, ok := e.(*ast.CallExpr); ok {
+		if fn := f.Callee(ce); fn != nil && fn.FullName() == "slices.Clone" && len(ce.Args) == 1 {
+			return suffix(ce.Args[0])
+		}
+		if f.BuiltinName(ce) == "append" && len(ce.Args) == 2 && ce.Ellipsis.IsValid() {
+			return empty(ce.Args[0]) && suffix(ce.Args[1])
+		}
+		return false
+	}
+	id, ok := e.(*ast.Ident)
+	if !ok {
+		return false
+	}
+	loc, _ := f.ObjOf(id).(*types.Var)
+	if loc == nil || loc.IsField() || f.Root().addressTaken(loc) {
+		return false
+	}
+	inits, fills := 0, 0
+	sized := false
+	for _, w := range Writes(f.Root().Body, true) {
+		if f.ObjOf(w.LHS) != types.Object(loc) {
+			continue
+		}
+		if w.Tok == token.DEFINE {
+			inits++
+			switch {
+			case w.RHS == nil || empty(w.RHS):
+			default:
+				// make([]T, len(data)-start)
+				mk, isC := ast.Unparen(w.RHS).(*ast.CallExpr)
+				if !isC || f.BuiltinName(mk) != "make" || len(mk.Args) != 2 {
+					return false
+				}
+				t, k, ok := f.linExpand(mk.Args[1], 0)
+				if !ok || k != -1 || len(t) != 3 || t["len(dataList.data)"] != 1 || t["param(int)"] != -1 || t["dataList.first"] != 1 {
+					return false
+				}
+				sized = true
+			}
+			continue
+		}
+		// ds = append(ds, data[i]) in `for i := start; i < len(data); i++`, or ds = append(ds, d) in `for _, d := range data[start:]`
+		ap, isC := ast.Unparen(w.RHS).(*ast.CallExpr)
+		if w.RHS == nil || !isC || f.BuiltinName(ap) != "append" || len(ap.Args) != 2 || ap.Ellipsis.IsValid() || f.ObjOf(ap.Args[0]) != types.Object(loc) {
+			return false
+		}
+		blk, _ := f.ParentOf(w.Stmt).(*ast.BlockStmt)
+		if blk == nil || len(blk.List) != 1 {
+			return false
+		}
+		switch loop := f.ParentOf(blk).(type) {
+		case *ast.ForStmt:
+			init, isA := loop.Init.(*ast.AssignStmt)
+			post, isP := loop.Post.(*ast.IncDecStmt)
+			if !isA || !isP || init.Tok != token.DEFINE || len(init.Lhs) != 1 || len(init.Rhs) != 1 || post.Tok != token.INC || f.ObjOf(init.Rhs[0]) != start {
+				return false
+			}
+			iv := f.ObjOf(init.Lhs[0])
+			x, y, op, ok := binaryCmp(loop.Cond)
+			lc, isL := ast.Unparen(y).(*ast.CallExpr)
+			if iv == nil || f.ObjOf(post.X) != iv || !ok || op != token.LSS || f.ObjOf(x) != iv || !isL || f.BuiltinName(lc) != "len" || !f.IsField(lc.Args[0], dataF) {
+				return false
+			}
+			m, k, isIx := indexOf(ap.Args[1])
+			if !isIx || !f.IsField(m, dataF) || f.ObjOf(k) != iv {
+				return false
+			}
+		case *ast.RangeStmt:
+			if !suffix(loop.X) || loop.Value == nil || f.ObjOf(loop.Value) == nil || f.ObjOf(ap.Args[1]) != f.ObjOf(loop.Value) {
+				return false
+			}
+		default:
+			return false
+		}
+		fills++
+	}
+	if sized {
+		// copy(ds, data[start:]) and nothing else
+		n := 0
+		for _, call := range f.AllCalls(f.Root().Body, true) {
+			if f.BuiltinName(call) == "copy" && len(call.Args) == 2 && f.ObjOf(call.Args[0]) == types.Object(loc) {
+				if !suffix(call.Args[1]) {
+					return false
+				}
+				n++
+			}
+		}
+		return inits == 1 && fills == 0 && n == 1
+	}
+	return inits == 1 && fills == 1
 }
